@@ -48,7 +48,7 @@ SHRINK_LISTS = ("ops", "setup", "tapes", "actors", "lines", "sends", "scn")
 
 
 def budget(tier):
-    return 12000 if tier == "quick" else 3 * G.short_history_count(len(SHORT), 4) + 100_000
+    return 12000 if tier == "quick" else 3 * G.short_history_count(len(SHORT), 4) + 250_000
 
 
 def wall(tier):
